@@ -174,6 +174,8 @@ def run(tier):
                 if lv <= 700:
                     ns |= {lv - 1, lv, lv + 1}
             ns |= set(int(x) for x in rng.integers(51, 700, size=30))
+            # up to the end of the fourth subdivision level (2562 icosahedron points), for every direction algorithm
+            ns |= set(int(x) for x in rng.integers(700, 2563, size=5)) | {2562}
             cases += [{"alg": alg, "N": n} for n in sorted(ns)]
         for alg in ALGS4:
             ns = set(range(1, 41)) | {41, 42}
@@ -182,7 +184,7 @@ def run(tier):
             cases += [{"alg": alg, "N": n} for n in sorted(ns)]
         cases += [{"alg": "fulldiv", "N": 8}, {"alg": "fulldiv", "N": 40}]
     else:
-        bounds = {"ico": 2563, "cube3D": 1539, "randomS": 800, "cube4D": 272, "randomQ": 272}
+        bounds = {"ico": 2563, "cube3D": 1539, "randomS": 2563, "cube4D": 272, "randomQ": 272}
         for alg, b in bounds.items():
             cases += [{"alg": alg, "N": n} for n in range(1, b + 1)]
         cases += [{"alg": "fulldiv", "N": n} for n in (8, 40, 272)]
@@ -197,8 +199,8 @@ def run(tier):
     results += pmap(_polytope_sweep, [("cube4D", 2), ("ico", 3), ("cube3D", 3)])
     res = merge_results(results)
     res.violations.sort(key=lambda v: v["case"]["N"])
-    rule = ("enumeration of (algorithm, N): " + ("every N in 1..50 (3D) / 1..42 (4D), level boundaries +-1, seeded larger N up to 700 / 110, N=272 for both rotation algorithms, fulldiv 8 and 40"
-            if tier == "quick" else "every N in 1..2563 (ico), 1..1539 (cube3D), 1..800 (randomS), 1..272 (cube4D, randomQ), fulldiv 8/40/272")
+    rule = ("enumeration of (algorithm, N): " + ("every N in 1..50 (3D) / 1..42 (4D), level boundaries +-1, seeded larger N up to 700 / 110, 5 seeded N in 700..2562 and N=2562 for each direction algorithm, N=272 for both rotation algorithms, fulldiv 8 and 40"
+            if tier == "quick" else "every N in 1..2563 (ico), 1..1539 (cube3D), 1..2563 (randomS), 1..272 (cube4D, randomQ), fulldiv 8/40/272")
             + ", the zero grids and every N=1 name; plus, without building cells, every N in 1..272 through the hypercube half-selection (level 2) and every 7th N through the level-3 icosahedron / cube node getters. Non-trivial = N>=2; distinct = distinct (algorithm, N).")
     return res, rule, {"exhaustive": tier == "thorough",
                        "assumptions": ["fulldiv 2080 is beyond the exploration bound (construction > 1 h)"]}
